@@ -7,6 +7,28 @@ open Jedi.Go Jedi.Gen.Go
 
 def showKey (k : Key) : String := k.1 ++ "(" ++ ", ".intercalate k.2 ++ ")"
 
+def capOf (a : Arg) (fld : String) : Int := (a.caps.lookup fld).getD 0
+
+/-- slot arrays (the `…_slots` theorems of Properties/GoBindings.lean): capacity the C function needs behind a pointer member,
+given the preceding `set_length` call of the same trace; returns (what, needed, available) when too small -/
+def slotShort (E : Env) (lastSet : Option (String × List Arg)) : Ev → Option (String × Int × Int)
+  | .ccall fn a =>
+    let chk (what : String) (need cap : Int) : Option (String × Int × Int) := if cap < need then some (what, need, cap) else none
+    if fn == "embedded_pairing_wkdibe_params_unmarshal" || fn == "embedded_pairing_wkdibe_secretkey_unmarshal" then
+      match lastSet with
+      | some (sf, sa) =>
+        let r := E.i ("call", sf :: sa.map (·.text))
+        if fn == "embedded_pairing_wkdibe_params_unmarshal" then chk (fn ++ " h[]") (max r 0 * E.sz "embedded_pairing_bls12_381_g1_t") (capOf (arg0 a) "h")
+        else chk (fn ++ " b[]") (max r 0 * E.sz "embedded_pairing_wkdibe_freeslot_t") (capOf (arg0 a) "b")
+      | none => some (fn ++ " without a preceding set_length", 0, 0)
+    else if fn == "embedded_pairing_wkdibe_setup" then
+      chk (fn ++ " h[]") (((arg2 a).val.getD 0) * E.sz "embedded_pairing_bls12_381_g1_t") (capOf (arg0 a) "h")
+    else if fn == "embedded_pairing_wkdibe_keygen" || fn == "embedded_pairing_wkdibe_qualifykey" || fn == "embedded_pairing_wkdibe_nondelegable_keygen"
+        || fn == "embedded_pairing_wkdibe_nondelegable_qualifykey" then
+      chk (fn ++ " b[]") ((E.i ("field", ["params.Data.l"]) - E.i ("len", ["attrs"])) * E.sz "embedded_pairing_wkdibe_freeslot_t") (capOf (arg0 a) "b")
+    else none
+  | _ => none
+
 def main (args : List String) : IO UInt32 := do
   let trials := (args.head? >>= String.toNat?).getD 400
   let mut bad := 0
@@ -16,7 +38,16 @@ def main (args : List String) : IO UInt32 := do
       if found then break
       let E := trialEnv t
       if decide (Pre n E) then
+        let mut lastSet : Option (String × List Arg) := none
         for e in f E do
+          if let .ccall fn a := e then
+            if fn == "embedded_pairing_wkdibe_params_set_length" || fn == "embedded_pairing_wkdibe_secretkey_set_length" then lastSet := some (fn, a)
+          if !found then
+           if let some (what, need, cap) := slotShort E lastSet e then
+            found := true
+            let (ik, bk, sk) := ((modelKeys.lookup n).getD ([], [], []))
+            let env := " ".intercalate (ik.map (fun k => s!"{showKey k}={E.i k}") ++ bk.map (fun k => s!"{showKey k}={E.b k}") ++ sk.map (fun s => s!"sizeof({s})={E.sz s}"))
+            IO.println s!"FAIL {n} trial={t} event=slot array too small for {what}: the C function fills {need} bytes, allocated {cap} env={env}"
           if !found then
            if let some (what, need, av) := bufShort E e then
             found := true
